@@ -771,3 +771,267 @@ Section Sparse.
              (fun g v H => lookup_grain_nn f sp g v Hw Hg H) (lookup_grain_nf f sp) fuel sector count Hs Hf).
   Qed.
 End Sparse.
+
+(* ====================================================================== *)
+(* Success on well-formed extents and the stream back-end contract.       *)
+(* ====================================================================== *)
+(* every grain below the capacity can be looked up: the directory is long enough, the tables lie inside
+   the file, SE-sparse entries carry a known type *)
+Definition sparse_covers (f : vfile) (sp : sparse) : Prop :=
+  forall g, 0 <= g -> g * sp_grain_size sp < sp_capacity sp -> exists v, lookup_grain f sp g = Ok v.
+
+Definition wf_sparse (f : vfile) (sp : sparse) : Prop :=
+  wf_words f /\ wf_geom sp /\ 0 <= sp_capacity sp /\ sparse_covers f sp.
+
+Theorem sparse_read_sectors_ok f sp hp sector count :
+  wf_sparse f sp -> 0 <= sector -> 0 <= count -> sector + count <= sp_capacity sp ->
+  exists p, sparse_read_sectors f sp 0 hp (fuel_for count) sector count = Ok p.
+Proof.
+  intros (Hw & Hg & Hcap & Hcov) Hs Hc Hend. pose proof Hg as [Hgs _].
+  apply (read_sectors_gen_ok (sp_grain_size sp) 0 (lookup_grain f sp) (is_compressed sp) hp Hgs
+           (guest_src f sp 0 hp) (lookup_hlook f sp 0 hp Hw Hg)
+           (fun g v H => lookup_grain_nn f sp g v Hw Hg H) (fuel_for count) sector count (sp_capacity sp));
+    try lia.
+  - exact Hcov.
+  - unfold fuel_for. lia.
+Qed.
+
+Lemma mk_vmdk_single x :
+  mk_vmdk [x] = {| v_offsets := []; v_disks := [(x, 0)]; v_size := 0 + x_size x; v_sector_count := 0 + x_sectors x |}.
+Proof. reflexivity. Qed.
+
+Lemma walk_single x sector count p0 :
+  0 < count -> count <= x_sectors x - sector ->
+  x_read x 0 sector count = Ok p0 ->
+  walk [(x, 0)] 0 sector count = Ok (map (fun s => (0, s)) p0 ++ []).
+Proof.
+  intros Hc Hfit Hread. cbn [walk].
+  destruct (Z.leb_spec count 0); [lia|].
+  replace (sector - 0) with sector by lia.
+  replace (Z.min (x_sectors x - sector) count) with count by lia.
+  rewrite Hread. cbn [bind]. replace (count - count) with 0 by lia.
+  destruct (Z.leb_spec 0 0); [|lia]. reflexivity.
+Qed.
+
+Lemma plan_of_x_single (p0 : list seg) : plan_of_x (map (fun s => (0, s)) p0 ++ []) = p0.
+Proof.
+  unfold plan_of_x. rewrite app_nil_r, map_map. cbn [snd]. apply map_id.
+Qed.
+
+(* sector arithmetic of VMDK._read for an aligned offset inside a disk of nsect sectors *)
+Lemma read_arith off len nsect :
+  0 <= off < nsect * 512 -> off mod 512 = 0 -> 0 < len ->
+  let n := Z.min len (nsect * 512 - off) in
+  let count := (n + 512 - 1) / 512 in
+  0 < count /\ off / 512 + count <= nsect /\ n <= count * 512 /\ off / 512 * 512 = off /\ 0 <= off / 512.
+Proof.
+  intros Hoff Hal Hlen n count.
+  pose proof (Z.div_mod off 512 ltac:(lia)) as Hdm.
+  pose proof (Z.div_mod (n + 512 - 1) 512 ltac:(lia)) as Hdc.
+  pose proof (Z.mod_pos_bound (n + 512 - 1) 512 ltac:(lia)) as Hmc.
+  fold count in Hdc. subst n.
+  split; [lia|]. split; [lia|]. split; [lia|]. split; lia.
+Qed.
+
+(* C02, the stream back-end contract for a sparse extent (VMDK._read with the clamp): an aligned
+   request, even one running past the end of the disk, succeeds and its first min(len, size - off)
+   bytes are the guest bytes *)
+Theorem vmdk_sparse_read_correct f sp hp off len :
+  wf_sparse f sp -> 0 <= off < sp_capacity sp * 512 -> off mod 512 = 0 -> 0 < len ->
+  exists p, vmdk_read (mk_vmdk [XSparse f sp hp]) off len = Ok p /\
+    let n := Z.min len (sp_capacity sp * 512 - off) in
+    firstn (Z.to_nat n) (srcs_of (plan_of_x p)) = map (guest_src f sp 0 hp) (zseq off n).
+Proof.
+  intros Hwf Hoff Hal Hlen. pose proof Hwf as (Hw & Hg & Hcap & Hcov).
+  unfold vmdk_read. rewrite mk_vmdk_single. cbn [v_size v_offsets v_disks x_size].
+  rewrite SECTOR_eq. replace (0 + sp_capacity sp * 512) with (sp_capacity sp * 512) by lia.
+  destruct (read_arith off len (sp_capacity sp) Hoff Hal Hlen) as (Hc & Hend & Hn & Hoffeq & Hs).
+  set (n := Z.min len (sp_capacity sp * 512 - off)) in *.
+  set (count := (n + 512 - 1) / 512) in *.
+  unfold vmdk_read_sectors. cbn [v_offsets v_disks bisect_right skipn Z.of_nat].
+  destruct (sparse_read_sectors_ok f sp hp (off / 512) count Hwf Hs ltac:(lia) Hend) as [p0 Hp0].
+  rewrite (walk_single (XSparse f sp hp) (off / 512) count p0 Hc ltac:(cbn [x_sectors]; lia) Hp0).
+  eexists. split; [reflexivity|]. cbv zeta. rewrite plan_of_x_single.
+  rewrite (sparse_read_sectors_correct f sp 0 hp Hw Hg (fuel_for count) (off / 512) count p0 Hs Hp0).
+  replace ((off / 512 - 0) * 512) with off by lia.
+  apply firstn_map_zseq. lia.
+Qed.
+
+(* ---------- flat extents ---------- *)
+Theorem raw_read_sectors_correct sector count :
+  srcs_of (raw_read_sectors 0 sector count) = map flat_src (zseq (sector * 512) (count * 512)).
+Proof.
+  unfold raw_read_sectors, srcs_of. rewrite SECTOR_eq. simpl. rewrite app_nil_r.
+  replace (sector - 0) with sector by lia. reflexivity.
+Qed.
+
+Theorem vmdk_flat_read_correct nsect off len :
+  0 <= off < nsect * 512 -> off mod 512 = 0 -> 0 < len ->
+  exists p, vmdk_read (mk_vmdk [XRaw (nsect * 512)]) off len = Ok p /\
+    let n := Z.min len (nsect * 512 - off) in
+    firstn (Z.to_nat n) (srcs_of (plan_of_x p)) = map flat_src (zseq off n).
+Proof.
+  intros Hoff Hal Hlen.
+  unfold vmdk_read. rewrite mk_vmdk_single. cbn [v_size v_offsets v_disks x_size].
+  rewrite SECTOR_eq. replace (0 + nsect * 512) with (nsect * 512) by lia.
+  destruct (read_arith off len nsect Hoff Hal Hlen) as (Hc & Hend & Hn & Hoffeq & Hs).
+  set (n := Z.min len (nsect * 512 - off)) in *.
+  set (count := (n + 512 - 1) / 512) in *.
+  unfold vmdk_read_sectors. cbn [v_offsets v_disks bisect_right skipn Z.of_nat].
+  assert (Hsect : x_sectors (XRaw (nsect * 512)) = nsect).
+  { cbn [x_sectors]. rewrite SECTOR_eq. apply Z.div_mul. lia. }
+  rewrite (walk_single (XRaw (nsect * 512)) (off / 512) count (raw_read_sectors 0 (off / 512) count) Hc
+             ltac:(rewrite Hsect; lia) eq_refl).
+  eexists. split; [reflexivity|]. cbv zeta. rewrite plan_of_x_single.
+  rewrite raw_read_sectors_correct. rewrite Hoffeq.
+  apply firstn_map_zseq. lia.
+Qed.
+
+(* ---------- the tail read without the clamp (the code as found) ---------- *)
+(* for ANY single-extent disk whose size is not a multiple of the request: the walk runs off the list of disks *)
+Theorem vmdk_tail_read_unclamped_fails x off len :
+  (forall s c, exists p, x_read x 0 s c = Ok p) ->
+  0 <= off -> off mod 512 = 0 -> 0 < x_sectors x - off / 512 < (len + 512 - 1) / 512 ->
+  vmdk_read_unclamped (mk_vmdk [x]) off len = Err.
+Proof.
+  intros Hread Hoff Hal Hshort. unfold vmdk_read_unclamped. rewrite mk_vmdk_single.
+  unfold vmdk_read_sectors. cbn [v_offsets v_disks bisect_right skipn Z.of_nat]. rewrite SECTOR_eq.
+  set (count := (len + 512 - 1) / 512) in *. set (s := off / 512) in *.
+  cbn [walk]. destruct (Z.leb_spec count 0); [lia|].
+  replace (s - 0) with s by lia.
+  replace (Z.min (x_sectors x - s) count) with (x_sectors x - s) by lia.
+  destruct (Hread s (x_sectors x - s)) as [p ->]. cbn [bind].
+  destruct (Z.leb_spec (count - (x_sectors x - s)) 0); [lia|]. reflexivity.
+Qed.
+
+(* ---------- header / footer selection (SparseDisk.__init__) ---------- *)
+Definition hosted_geometry (h : header) : sparse :=
+  let cov := h_num_gte h * h_grain_size h in
+  {| sp_se := false; sp_flags := h_flags h; sp_capacity := h_capacity h; sp_grain_size := h_grain_size h;
+     sp_gd_size := (h_capacity h + cov - 1) / cov; sp_gt_size := h_num_gte h;
+     sp_gd_off := h_gd_off h; sp_gts_off := 0; sp_grains_off := 0 |}.
+
+(* a primary header whose grain-directory offset is SPARSE_GD_AT_END (2^64-1) is only a pointer to the
+   copy 1024 bytes before the end of the file: geometry and grain directory come from that copy *)
+Theorem footer_selected f h0 hf :
+  read_header f 0 = Ok h0 -> h_kind h0 = KHosted -> h_gd_off h0 = C.vmdk_SPARSE_GD_AT_END ->
+  1024 <= f_size f ->
+  read_header f (f_size f - 1024) = Ok hf -> h_kind hf = KHosted ->
+  h_num_gte hf * h_grain_size hf <> 0 ->
+  open_sparse f =
+    if array_in_file f 4 (h_gd_off hf) (sp_gd_size (hosted_geometry hf)) then Ok (hosted_geometry hf) else Err.
+Proof.
+  intros H0 Hk0 Hgd Hsz Hf Hkf Hcov. unfold open_sparse. rewrite H0. cbn [bind]. rewrite Hk0.
+  rewrite Hgd. change (int64_is_m1 C.vmdk_SPARSE_GD_AT_END) with true. cbv iota.
+  change T.vmdk_footer_seek with (-1024).
+  replace (Z.max 0 (f_size f + -1024)) with (f_size f - 1024) by lia.
+  rewrite Hf. cbn [bind]. rewrite Hkf.
+  destruct (Z.eqb_spec (h_num_gte hf * h_grain_size hf) 0) as [|_]; [contradiction|].
+  cbn [bind]. reflexivity.
+Qed.
+
+Theorem header_selected f h0 :
+  read_header f 0 = Ok h0 -> h_kind h0 = KHosted -> 0 <= h_gd_off h0 < 2 ^ 64 - 1 ->
+  h_num_gte h0 * h_grain_size h0 <> 0 ->
+  open_sparse f =
+    if array_in_file f 4 (h_gd_off h0) (sp_gd_size (hosted_geometry h0)) then Ok (hosted_geometry h0) else Err.
+Proof.
+  intros H0 Hk0 Hgd Hcov. unfold open_sparse. rewrite H0. cbn [bind]. rewrite Hk0.
+  assert (Hm : int64_is_m1 (h_gd_off h0) = false).
+  { unfold int64_is_m1. apply Z.eqb_neq. rewrite Z.mod_small by lia. lia. }
+  rewrite Hm. cbn [bind]. rewrite Hk0.
+  destruct (Z.eqb_spec (h_num_gte h0 * h_grain_size h0) 0) as [|_]; [contradiction|].
+  cbn [bind]. reflexivity.
+Qed.
+
+(* ---------- non-vacuity: concrete well-formed extents ---------- *)
+Definition lookz (l : list (Z * Z)) (o : Z) : Z := match assoc_z l o with Some v => v | None => 0 end.
+
+Lemma lookz_range (P : Z -> Prop) l : P 0 -> Forall (fun p => P (snd p)) l -> forall o, P (lookz l o).
+Proof.
+  intros H0 Hl o. unfold lookz. induction l as [|[k v] l IH]; cbn [assoc_z]; [exact H0|].
+  inversion Hl as [|? ? Hv Hl']; subst. destruct (k =? o); [exact Hv|apply IH; exact Hl'].
+Qed.
+
+(* hosted sparse: 14 sectors (neither a multiple of the 4-sector grain nor of 16), 2-entry grain tables;
+   grains 0 and 1 stored back to back, grain 2 a zero grain, grain 3 absent *)
+Definition ex_file : vfile :=
+  {| f_size := 28 * 512; f_hdr := fun _ => [];
+     f_u32 := lookz [(512, 2); (516, 3); (1024, 20); (1028, 24); (1536, 1)];
+     f_u64 := lookz [] |}.
+Definition ex_sparse : sparse :=
+  {| sp_se := false; sp_flags := 1; sp_capacity := 14; sp_grain_size := 4; sp_gd_size := 2; sp_gt_size := 2;
+     sp_gd_off := 1; sp_gts_off := 0; sp_grains_off := 0 |}.
+
+Example ex_sparse_wf : wf_sparse ex_file ex_sparse.
+Proof.
+  split; [|split; [|split]].
+  - split; intros o; cbn [ex_file f_u32 f_u64].
+    + apply (lookz_range (fun v => 0 <= v)); [lia|]. repeat constructor; cbn; lia.
+    + apply (lookz_range u64); [unfold u64; lia|]. constructor.
+  - split; [cbn; lia|]. intros H; discriminate.
+  - cbn; lia.
+  - intros g Hg Hlt. cbn [ex_sparse sp_grain_size sp_capacity] in Hlt.
+    assert (Hcase : g = 0 \/ g = 1 \/ g = 2 \/ g = 3) by lia.
+    destruct Hcase as [->|[->|[->| ->]]]; eexists; vm_compute; reflexivity.
+Qed.
+
+Example ex_sparse_read :
+  vmdk_read (mk_vmdk [XSparse ex_file ex_sparse false]) 512 8192 =
+  Ok [(0, SFile 10752 3584); (0, SZero 2048); (0, SZero 1024)].
+Proof. vm_compute. reflexivity. Qed.
+
+Example ex_sparse_tail_unclamped :
+  vmdk_read_unclamped (mk_vmdk [XSparse ex_file ex_sparse false]) 0 8192 = Err.
+Proof. vm_compute. reflexivity. Qed.
+
+(* SE-sparse: 20 sectors, 8-sector grains, one 64-entry table; grain 0 at cluster 2^12+5 (uses both
+   parts of the split cluster field), grain 1 zero, grain 2 unallocated *)
+Definition ex_se_file : vfile :=
+  {| f_size := 2 ^ 40; f_hdr := fun _ => []; f_u32 := lookz [];
+     f_u64 := lookz [(1024, 1152921504606846976);
+                     (2048, 3458764513820540928 + 5 * 2 ^ 48 + 1); (2056, 2305843009213693952)] |}.
+Definition ex_se_sparse : sparse :=
+  {| sp_se := true; sp_flags := 0; sp_capacity := 20; sp_grain_size := 8; sp_gd_size := 64; sp_gt_size := 64;
+     sp_gd_off := 2; sp_gts_off := 4; sp_grains_off := 16 |}.
+
+Example ex_se_wf : wf_sparse ex_se_file ex_se_sparse.
+Proof.
+  split; [|split; [|split]].
+  - split; intros o; cbn [ex_se_file f_u32 f_u64].
+    + apply (lookz_range (fun v => 0 <= v)); [lia|]. constructor.
+    + apply (lookz_range u64); [unfold u64; lia|]. repeat constructor; cbn; lia.
+  - split; [cbn; lia|]. intros _. split; [cbn; lia|reflexivity].
+  - cbn; lia.
+  - intros g Hg Hlt. cbn [ex_se_sparse sp_grain_size sp_capacity] in Hlt.
+    assert (Hcase : g = 0 \/ g = 1 \/ g = 2) by lia.
+    destruct Hcase as [->|[->| ->]]; eexists; vm_compute; reflexivity.
+Qed.
+
+Example ex_se_read :
+  vmdk_read (mk_vmdk [XSparse ex_se_file ex_se_sparse false]) 0 16384 =
+  Ok [(0, SFile ((16 + (2 ^ 12 + 5) * 8) * 512) 4096); (0, SZero 4096); (0, SZero 2048)].
+Proof. vm_compute. reflexivity. Qed.
+
+(* encode / decode round trip of the SE-sparse cluster field: every cluster number below 2^60 survives,
+   so nothing is truncated at 2^32 sectors *)
+Lemma se_cluster_roundtrip c : 0 <= c < 2 ^ 60 ->
+  se_cluster (3 * 2 ^ 60 + (c mod 2 ^ 12) * 2 ^ 48 + c / 2 ^ 12) = c.
+Proof.
+  intros Hc.
+  pose proof (Z.mod_pos_bound c (2 ^ 12) ltac:(lia)) as Hlo.
+  assert (Hhi : 0 <= c / 2 ^ 12 < 2 ^ 48).
+  { split; [apply Z.div_pos; lia|]. apply Z.div_lt_upper_bound; lia. }
+  set (lo := c mod 2 ^ 12) in *. set (hi := c / 2 ^ 12) in *.
+  rewrite se_cluster_spec by lia.
+  assert (H1 : (3 * 2 ^ 60 + lo * 2 ^ 48 + hi) / 2 ^ 48 = 3 * 2 ^ 12 + lo).
+  { replace (3 * 2 ^ 60 + lo * 2 ^ 48 + hi) with ((3 * 2 ^ 12 + lo) * 2 ^ 48 + hi) by lia.
+    apply div_mul_add; lia. }
+  assert (H2 : (3 * 2 ^ 60 + lo * 2 ^ 48 + hi) mod 2 ^ 48 = hi).
+  { replace (3 * 2 ^ 60 + lo * 2 ^ 48 + hi) with ((3 * 2 ^ 12 + lo) * 2 ^ 48 + hi) by lia.
+    apply mod_mul_add; lia. }
+  rewrite H1, H2.
+  replace ((3 * 2 ^ 12 + lo) mod 2 ^ 12) with lo.
+  2:{ symmetry. replace (3 * 2 ^ 12 + lo) with (3 * 2 ^ 12 + lo) by lia. apply mod_mul_add; lia. }
+  pose proof (Z.div_mod c (2 ^ 12) ltac:(lia)) as Hdm. fold lo hi in Hdm. lia.
+Qed.
